@@ -29,6 +29,12 @@ CHECKS = {
         note="Trusted: Coq kernel/vm_compute; the hand-written parser/receiver/urlsplit models (compared by execution: K-parse/K-env); the body buffer is modelled as the appended bytes (tempfile path exercised by K-env; C17 proves the buffer a FIFO separately); the framing verdict and decoded body are inputs of the specification (C01's subject). Specification decisions: visible-ASCII targets, SERVER_PROTOCOL only for 1.0/1.1, obs-fold joins lines keeping the white space, bracketed IPv6 authorities unmodelled (skipped and counted). ident=None yields SERVER_SOFTWARE=None (configuration outside the quantifier).",
         technique="inductive invariants over the header loop and over all received() runs, reflective regex inclusion for the method token, finite key-disjointness check, functional equality with an independent specification in Coq + differential model/spec-versus-implementation execution",
     ),
+    "C14": dict(
+        text="Model/Dispatcher.v is an executable interleaving model of ThreadedTaskDispatcher (workers, submitters, resizers, shutdown, task bodies that submit follow-ups or raise; one critical section under self.lock = one atomic step, which is sound because every access to queue/threads/stop_count/active_count is under that lock - audited by ast on every run). For ALL schedules (no bound on length, tasks, workers or set_thread_count arguments) an inductive invariant proves: the ledger is a function (each submitted task is in exactly one of queued / running / done / cancelled, service count 1 iff running or done, cancel count 1 iff cancelled, never both), tasks are taken in submission order, in every quiescent state a non-empty queue implies no worker exists (no lost wake-up inside the pool), live workers = requested count at quiescence, and the shutdown theorems. Tie: the real class runs under a deterministic baton-passing scheduler (harness/sched.py, fake_threading.py); every observed critical section is checked against the extracted model's step and abstract state; the property monitor runs on the real trace; bounded exhaustive schedule exploration on small scenarios.",
+        design_ref="DESIGN.md section 7 C14, section 4.3, Appendix C (Pool ledger)",
+        note="Theorems are about Model/Dispatcher.v at critical-section granularity under sequential consistency; notify wakes ANY waiter (over-approximates CPython's FIFO); timeouts are environment choices; convergence is stated as absence of bad quiescent states, not liveness under fairness. The tie is sampled (random + PCT schedules, exhaustive up to 3 pre-emptions on small scenarios). CPython-internal races, the real threading primitives and pre-emption inside C code are not covered.",
+        technique="Coq inductive invariant over an executable interleaving model, for all schedules + deterministic-scheduler conformance of the real class against the extracted model, trace monitor, ast lock-discipline audit",
+    ),
 }
 
 NOT_YET = {}
